@@ -1,6 +1,7 @@
 #!/bin/bash
-# usage: seeded_verify.sh <ID> <lib|integ|integ-utils>   — confirm a seeded change in the scratch worktree /tmp/ws
-ID=$1; KIND=$2; D=/verif/seeded/$ID; cd /tmp/ws || exit 2
+# usage: seeded_verify.sh <ID> <lib|integ|integ-utils> [worktree]  — confirm a seeded change in a scratch worktree (default /tmp/ws)
+ID=$1; KIND=$2; WS=${3:-/tmp/ws}; D=/verif/seeded/$ID; cd $WS || exit 2
+export CARGO_NET_OFFLINE=true
 git checkout -q -- . ; git clean -fdq -e target
 git apply $D/patch.diff || { echo "patch does not apply"; exit 2; }
 if [ -f $D/seeded_demo.rs ] && [ "$KIND" != "lib" ]; then cp $D/seeded_demo.rs tests/seeded_demo.rs; else git apply $D/demo.diff || { echo "demo does not apply"; exit 2; }; fi
